@@ -17,7 +17,7 @@ func init() {
 	register("C10", checkC10)
 	describe("C10", Meta{
 		Technique: "ownership rule over resolved field objects (who may store to the topology fields), block-level pairing of Internal_inputs/Links size changes and of port counters with their endpoint lists, and index-space inference (INDEXKIND) inside every topology editor",
-		Claim:     "Decides structural clauses of C10: (a) only methods of Bondmachine (through their receiver) or code building a freshly allocated machine store to Links / Internal_inputs / Internal_outputs / Inputs / Outputs / Processors / Shared_links; (b) every block that grows, shrinks or replaces Internal_inputs does the same to Links (one link slot per internal input); (c) inside the editors, values stored into Links are internal-output indices and comparisons relate indices of one space; (d) the Inputs/Outputs counters change together with the endpoint lists; (c') the processor number printed into an endpoint name ('p' followed by the number) by an editor or a composite editor is a processor index; (e) DERIVED: any other field of Bondmachine that is filled with positions in Internal_inputs/Internal_outputs is refreshed or invalidated by every method that stores to that list. Necessary conditions for well-formedness after edits; that the right element is removed and the renumbering arithmetic are not decided.",
+		Claim:     "Decides structural clauses of C10: (a) only methods of Bondmachine (through their receiver) or code building a freshly allocated machine store to Links / Internal_inputs / Internal_outputs / Inputs / Outputs / Processors / Shared_links; (b) every block that grows, shrinks or replaces Internal_inputs does the same to Links (one link slot per internal input); (c) inside the editors, values stored into Links are internal-output indices and comparisons relate indices of one space; (d) the Inputs/Outputs counters change together with the endpoint lists; (c') the processor number printed into an endpoint name ('p' followed by the number) by an editor or a composite editor is a processor index; (f) REMOVAL: a topology list is never cut by reslicing at a position computed without walking the list; (e) DERIVED: any other field of Bondmachine that is filled with positions in Internal_inputs/Internal_outputs is refreshed or invalidated by every method that stores to that list. Necessary conditions for well-formedness after edits; that the right element is removed and the renumbering arithmetic are not decided.",
 		Note:      "Flow-insensitive within a block; 'fresh' means the machine variable is initialised with new(Bondmachine)/&Bondmachine{}/a Bondmachine value in the same function.",
 		DesignRef: "DESIGN.md §2 C10",
 	})
@@ -356,6 +356,7 @@ func checkC10(r *core.Run) {
 	r.Count("topology_stores", nStores)
 
 	c10Derived(r, prog, bm, st)
+	c10Removal(r, prog, bm, isTopoField)
 
 	// (c) index kinds inside the editors
 	e := newIKEngine(r, prog, "C10")
@@ -712,4 +713,106 @@ func callsTopologyEditor(pk *packages.Package, fd *ast.FuncDecl) bool {
 		return true
 	})
 	return found
+}
+
+
+// c10Removal (C10/REMOVAL): which element an editor removes from Internal_inputs /
+// Internal_outputs / Links must be found by looking at the elements (the bond of the deleted port is
+// wherever earlier edits left it: external ports and processor ports interleave in creation order). A
+// list cut by reslicing (`L = L[:k]`, `append(L[:i], L[i+1:]...)`) at a position computed from lengths
+// or constants alone removes whatever happens to sit there. Position variables count as found by
+// content when they are the key of a loop over a topology list or are assigned inside such a loop.
+func c10Removal(r *core.Run, prog *core.Program, bm *packages.Package, isTopoField func(*types.Var) bool) {
+	info := bm.TypesInfo
+	n := 0
+	core.FuncDecls(bm, func(_ *ast.File, fd *ast.FuncDecl) {
+		if core.RecvTypeName(info, fd) != "Bondmachine" {
+			return
+		}
+		// content-derived position variables
+		derived := map[types.Object]bool{}
+		ast.Inspect(fd.Body, func(m ast.Node) bool {
+			rs, ok := m.(*ast.RangeStmt)
+			if !ok {
+				return true
+			}
+			if f := core.FieldOf(info, rs.X); f == nil || !isTopoField(f) {
+				return true
+			}
+			if id, ok := rs.Key.(*ast.Ident); ok {
+				derived[info.ObjectOf(id)] = true
+			}
+			ast.Inspect(rs.Body, func(q ast.Node) bool {
+				switch x := q.(type) {
+				case *ast.AssignStmt:
+					for _, l := range x.Lhs {
+						if id, ok := l.(*ast.Ident); ok {
+							derived[info.ObjectOf(id)] = true
+						}
+					}
+				case *ast.IncDecStmt:
+					if id, ok := x.X.(*ast.Ident); ok {
+						derived[info.ObjectOf(id)] = true
+					}
+				}
+				return true
+			})
+			return true
+		})
+		k := 0
+		ast.Inspect(fd.Body, func(m ast.Node) bool {
+			as, ok := m.(*ast.AssignStmt)
+			if !ok || len(as.Lhs) != len(as.Rhs) {
+				return true
+			}
+			for i, l := range as.Lhs {
+				f := core.FieldOf(info, l)
+				if f == nil || !isTopoField(f) || (f.Name() != "Internal_inputs" && f.Name() != "Internal_outputs" && f.Name() != "Links") {
+					continue
+				}
+				// reslices of the same list on the right-hand side
+				var bad []string
+				found := false
+				ast.Inspect(as.Rhs[i], func(q ast.Node) bool {
+					se, ok := q.(*ast.SliceExpr)
+					if !ok || core.FieldOf(info, se.X) != f {
+						return true
+					}
+					found = true
+					for _, b := range []ast.Expr{se.Low, se.High} {
+						if b == nil {
+							continue
+						}
+						ast.Inspect(b, func(z ast.Node) bool {
+							if id, ok := z.(*ast.Ident); ok {
+								if v, ok := info.ObjectOf(id).(*types.Var); ok && !v.IsField() && !derived[v] {
+									if _, isParam := info.Types[id]; isParam {
+										bad = append(bad, id.Name)
+									}
+								}
+							}
+							return true
+						})
+						if tv, ok := info.Types[b]; ok && tv.Value != nil {
+							bad = append(bad, "constant "+tv.Value.String())
+						}
+					}
+					return true
+				})
+				if !found {
+					continue
+				}
+				k++
+				n++
+				inst := fmt.Sprintf("C10/REMOVAL:%s:%s#%d", core.FuncKey(bm, fd), f.Name(), k)
+				if len(bad) == 0 {
+					r.OK("C10/REMOVAL", inst, prog.Pos(as.Pos()), "the cut position was found by walking the list")
+				} else {
+					r.Violation("C10/REMOVAL", inst, prog.Pos(as.Pos()), fmt.Sprintf("%s cuts %s by reslicing at a position computed without looking at the elements (%s): the bond of the port being deleted is wherever earlier edits left it — e.g. not last when a processor was added after it — so another endpoint (and its link slot) is removed and the deleted port's bond survives", core.FuncKey(bm, fd), f.Name(), strings.Join(bad, ", ")))
+				}
+			}
+			return true
+		})
+	})
+	r.Count("topology_reslices", n)
 }
